@@ -10,6 +10,7 @@ import itertools as itt
 import random
 
 from .. import common as C
+from .. import forms as F
 from .. import gen_graph as G
 
 PROP = "C14"
@@ -35,6 +36,7 @@ RULE = ("three streams, in this order. (1) corpus of past witnesses. (2) STRUCTU
         "A case is non-trivial when the graph has >=3 nodes, at least one edge of each kind present or an isolated node, "
         "and the argument set is neither empty nor everything.")
 ASSUMPTIONS = [
+    "argument FORMS (harness/forms.py): every call is made with the node set in one of the forms the signature allows, chosen deterministically per case and recorded as tags form_*: `Variable | Iterable[Variable]` parameters (subgraph, remove_*, ancestors/descendants_inclusive, get_markov_blanket, pre; sources/targets of get_nodes_in_directed_paths) as list / tuple / set / frozenset / dict keys / generator / iterator / map / a bare Variable for a one-element set; `Collection` / `set` parameters (get_markov_pillow, intervene) in the re-iterable forms only; an explicit topological order as list or tuple; the default order omitted / None / None by keyword; positional or keyword call; the receiver built through every public constructor (from_edges with lists / tuples / generators / iterators / sets, from_str_edges, from_adj, from_str_adj, from_latent_variable_dag, incremental add_* calls with str or Variable names) -- the constructors that change the insertion order only for the operations whose result does not depend on it. The model takes lists; independence of the form is a runtime clause decided by correspondence + oracle. A constructor that does not build the graph it was asked for is reported by the oracle as well",
     "clause 'the receiver is never modified' is a Python-runtime clause (R): decided by comparing nodes()/edges() of the receiver before and after every call, not by a theorem (the model is pure)",
     "topological_sort / pre with the default order: the theorems say the result is a linear extension (resp. its prefix before the first member of S) for every insertion order, and that success does not depend on the insertion order; equality of the exact order with networkx is correspondence only",
     "intervene: node relabelling is modelled as a map f (injective for the edge characterisations); the harness decodes CounterfactualVariable nodes back to base names and checks their subscripts separately",
@@ -406,7 +408,40 @@ def _exhaustive_small():
     return out
 
 
+ITER_OPS = ("subgraph", "remove_in_edges", "remove_out_edges", "remove_nodes_from", "ancestors_inclusive",
+            "descendants_inclusive", "get_markov_blanket", "pre", "pre_order", "nodes_in_directed_paths")
+KW = {"subgraph": "vertices", "remove_in_edges": "vertices", "remove_out_edges": "vertices", "remove_nodes_from": "vertices",
+      "ancestors_inclusive": "sources", "descendants_inclusive": "sources", "get_markov_pillow": "nodes",
+      "get_markov_blanket": "nodes", "intervene": "variables", "get_district": "node"}
+
+
+def _slots(case):
+    """the argument forms that are legal for this case (read off the signatures in graph.py)"""
+    op = case["op"]
+    order_matters = op in ORDER_FREE or (op == "pre_order" and not case.get("order"))
+    sl = {"ctor": F.CTORS_SAME_ORDER if order_matters else F.CTORS, "call": ("positional", "keyword")}
+    if op in ITER_OPS:
+        sl["S"] = F.CONTAINERS + (F.SINGLE, F.SINGLE)       # Variable | Iterable[Variable]
+    elif op in ("get_markov_pillow", "intervene"):
+        sl["S"] = F.REITERABLE                              # Collection[Variable] / set[Intervention]
+    if op == "nodes_in_directed_paths":
+        sl["T"] = F.CONTAINERS + (F.SINGLE, F.SINGLE)
+    if op == "pre_order":
+        sl["order"] = F.SEQUENCES                           # Sequence[Variable]
+    if op == "pre":
+        sl["default_order"] = ("omitted", "none", "none_keyword")
+    return sl
+
+
+def _forms(case):
+    return F.forms_of(case, _slots(case))
+
+
 def cases(rng: random.Random, tier: str):
+    return [F.assign(c, _slots(c)) for c in _cases(rng, tier)]
+
+
+def _cases(rng: random.Random, tier: str):
     out = [dict(c, shape="corpus") for c in CORPUS]
     n_struct, n_rand = {"thorough": (100000, 200000), "escalated": (QUICK_STRUCTURED, QUICK_RANDOM // 4)}.get(
         tier, (QUICK_STRUCTURED, QUICK_RANDOM))
@@ -439,39 +474,43 @@ def _snapshot(graph):
 
 
 def _call(case, g):
-    """run the operation on the real code; returns canonical output"""
+    """run the operation on the real code, every argument in the form recorded for the case; returns canonical output"""
     import networkx as nx
     from y0.dsl import Intervention
     from y0.graph import get_nodes_in_directed_paths
 
     op = case["op"]
-    graph = G.to_nx_mixed(g)
-    S = {G.V(i) for i in case.get("S", [])}
-    before = _snapshot(graph)
-    extra = None
+    fm = _forms(case)
     try:
-        if op == "subgraph":
-            out = ["ok", _canon_nxgraph(graph.subgraph(S))]
-        elif op == "remove_in_edges":
-            out = ["ok", _canon_nxgraph(graph.remove_in_edges(S))]
-        elif op == "remove_out_edges":
-            out = ["ok", _canon_nxgraph(graph.remove_out_edges(S))]
-        elif op == "remove_nodes_from":
-            out = ["ok", _canon_nxgraph(graph.remove_nodes_from(S))]
-        elif op == "intervene":
-            ivs = {Intervention(name=G.vname(i), star=st) for i, st in zip(case["S"], case["stars"])}
-            r = graph.intervene(ivs)
-            bad = [n for n in r.nodes() if getattr(n, "interventions", None) != frozenset(ivs) and ivs]
-            extra = "intervene: node without the requested subscripts" if bad else None
+        graph = F.build_graph(g, fm["ctor"], seed=case.get("shuffle_seed", 0))
+    except Exception as e:  # noqa: BLE001 - every graph dict of this module is a legal input of every constructor
+        return ["err"], f"constructor {fm['ctor']} raised {type(e).__name__}: {str(e)[:120]}"
+    extra = F.constructor_fault(g, graph, fm["ctor"])
+    if extra:
+        return ["err"], extra
+    Sl = [G.V(i) for i in case.get("S", [])]
+    S = set(Sl)                                   # for the harness' own use; the call gets a fresh container
+    kw = fm["call"] == "keyword"
+    arg = lambda: F.varset(Sl, fm["S"])           # noqa: E731
+    before = _snapshot(graph)
+    try:
+        if op in ("subgraph", "remove_in_edges", "remove_out_edges", "remove_nodes_from"):
+            r = getattr(graph, op)(**{KW[op]: arg()}) if kw else getattr(graph, op)(arg())
             out = ["ok", _canon_nxgraph(r)]
-        elif op == "ancestors_inclusive":
-            out = ["ok", C.as_set([str(G.vint(v)) for v in graph.ancestors_inclusive(S)])]
-        elif op == "descendants_inclusive":
-            out = ["ok", C.as_set([str(G.vint(v)) for v in graph.descendants_inclusive(S)])]
+        elif op == "intervene":
+            ivl = [Intervention(name=G.vname(i), star=st) for i, st in zip(case["S"], case["stars"])]
+            ivs = set(ivl)
+            r = graph.intervene(variables=F.container(ivl, fm["S"])) if kw else graph.intervene(F.container(ivl, fm["S"]))
+            bad = [n for n in r.nodes() if getattr(n, "interventions", None) != frozenset(ivs) and ivs]
+            extra = extra or ("intervene: node without the requested subscripts" if bad else None)
+            out = ["ok", _canon_nxgraph(r)]
+        elif op in ("ancestors_inclusive", "descendants_inclusive", "get_markov_blanket"):
+            r = getattr(graph, op)(**{KW[op]: arg()}) if kw else getattr(graph, op)(arg())
+            out = ["ok", C.as_set([str(G.vint(v)) for v in r])]
         elif op == "get_markov_pillow":
-            out = ["ok", C.as_set([str(G.vint(v)) for v in graph.get_markov_pillow(S)])]
-        elif op == "get_markov_blanket":
-            out = ["ok", C.as_set([str(G.vint(v)) for v in graph.get_markov_blanket(S)])]
+            a = F.container(Sl, fm["S"])
+            r = graph.get_markov_pillow(nodes=a) if kw else graph.get_markov_pillow(a)
+            out = ["ok", C.as_set([str(G.vint(v)) for v in r])]
         elif op == "districts":
             ds = graph.districts()
             out = ["ok", C.as_set([C.as_set([str(G.vint(v)) for v in d]) for d in ds])]
@@ -484,23 +523,40 @@ def _call(case, g):
         elif op == "topological_sort":
             out = ["ok", [str(G.vint(v)) for v in graph.topological_sort()]]
         elif op == "pre" or (op == "pre_order" and not case["order"]):
-            r = graph.pre(S) if op == "pre" else graph.pre(S, [])
+            if op == "pre":
+                d = fm["default_order"]
+                if d == "omitted":
+                    r = graph.pre(nodes=arg()) if kw else graph.pre(arg())
+                elif d == "none":
+                    r = graph.pre(nodes=arg(), topological_sort_order=None) if kw else graph.pre(arg(), None)
+                else:
+                    r = graph.pre(arg(), topological_sort_order=None)
+            else:
+                empty = F.container([], fm["order"])
+                r = graph.pre(nodes=arg(), topological_sort_order=empty) if kw else graph.pre(arg(), empty)
             out = ["ok", [str(G.vint(v)) for v in r]]
             # pre_spec: the prefix of topological_sort() that stops at the first member of S
             ts = graph.topological_sort()
             want = list(itt.takewhile(lambda x: x not in S, ts))
             if list(r) != want:
-                extra = f"pre: {out[1]} is not the prefix of topological_sort() before the first member of S"
+                extra = extra or f"pre: {out[1]} is not the prefix of topological_sort() before the first member of S"
         elif op == "pre_order":
-            out = ["ok", [str(G.vint(v)) for v in graph.pre(S, [G.V(i) for i in case["order"]])]]
+            order = F.container([G.V(i) for i in case["order"]], fm["order"])
+            r = graph.pre(nodes=arg(), topological_sort_order=order) if kw else graph.pre(arg(), order)
+            out = ["ok", [str(G.vint(v)) for v in r]]
         elif op == "get_district":
-            out = ["ok", C.as_set([str(G.vint(v)) for v in graph.get_district(G.V(case["v"]))])]
+            r = graph.get_district(node=G.V(case["v"])) if kw else graph.get_district(G.V(case["v"]))
+            out = ["ok", C.as_set([str(G.vint(v)) for v in r])]
         elif op == "nodes_in_directed_paths":
-            T = {G.V(i) for i in case["T"]}
-            out = ["ok", C.as_set([str(G.vint(v)) for v in get_nodes_in_directed_paths(graph, S, T)])]
+            Tl = [G.V(i) for i in case["T"]]
+            r = get_nodes_in_directed_paths(graph=graph, sources=arg(), targets=F.varset(Tl, fm["T"])) if kw else \
+                get_nodes_in_directed_paths(graph, arg(), F.varset(Tl, fm["T"]))
+            out = ["ok", C.as_set([str(G.vint(v)) for v in r])]
         else:
             raise ValueError(op)
-    except (nx.NetworkXError, nx.NetworkXUnfeasible, nx.NodeNotFound, KeyError, RuntimeError, ValueError) as e:
+    except (nx.NetworkXError, nx.NetworkXUnfeasible, nx.NodeNotFound, KeyError, RuntimeError, ValueError, TypeError) as e:
+        # TypeError: no argument form used here is outside the declared types, so a rejected form is an error outcome
+        # like any other (the oracle then says whether the definition allows an error on this input)
         out = ["err"]
         extra_tag = type(e).__name__  # noqa: F841
     after = _snapshot(graph)
@@ -712,6 +768,11 @@ def run_python(case):
             "arg_outside_graph": bool(S) and not set(S) <= set(V),
             "insertion_order_not_sorted": g["nodes"] != sorted(V) or g["di"] != sorted(g["di"])}
     tags.update(_features(case, set(V), {tuple(e) for e in g["di"]}))
+    fm = _forms(case)
+    for k in ("S", "T"):
+        if k in fm and k in case:
+            fm[k] = F.effective(case[k], fm[k])
+    tags.update(F.tags(fm))
     return {"out": out, "fail": fail, "nontrivial": nontrivial, "tags": tags}
 
 
